@@ -331,7 +331,7 @@ package xmpp
 //@ func writeStreamFeatures
 //@   noswallow[C01,C02,C04]
 //@   ensures[C01,C02,C04] unchanged(s.state) && unchanged(s.negotiated) && unchanged(s.features) && unchanged(s.in.d) && unchanged(features)
-//@   ensures[C01,C02,C04] err == nil ==> list != nil && list.cache != nil
+//@   ensures err == nil ==> list != nil && list.cache != nil
 //@   ensures[C01,C02,C04] err == nil ==> forall k string :: has(list.cache, k) ==> cached(list.cache[k], k, s.state) && (list.cache[k].req ==> list.req)
 //@   ensures[C01,C02,C04] err == nil ==> forall k string :: has(list.cache, k) ==> exists i int :: 0 <= i && i < len(features) && features[i] == list.cache[k].feature
 //@   ensures[C01,C02,C04] err == nil ==> forall i int :: 0 <= i && i < len(features) && prereq(s.state, features[i]) ==> has(list.cache, features[i].Name.Space)
@@ -346,7 +346,7 @@ package xmpp
 //@     preserves s.state, s.negotiated, s.features, s.in.d, list, list.cache, list.req, list.total, features
 //@   loop 1
 //@     invariant[C01,C02,C04] unchanged(s.state) && unchanged(s.negotiated) && unchanged(s.features) && unchanged(s.in.d) && unchanged(features)
-//@     invariant[C01,C02,C04] list != nil && list.cache != nil
+//@     invariant list != nil && list.cache != nil
 //@     invariant[C01,C02,C04] forall k string :: has(list.cache, k) ==> cached(list.cache[k], k, s.state) && (list.cache[k].req ==> list.req)
 //@     invariant[C01,C02,C04] forall k string :: has(list.cache, k) ==> exists i int :: 0 <= i && i < len(features) && features[i] == list.cache[k].feature
 //@     invariant[C01,C02,C04] forall j int :: 0 <= j && j <= rangeindex && prereq(s.state, features[j]) ==> has(list.cache, features[j].Name.Space)
@@ -360,7 +360,7 @@ package xmpp
 //@ func readStreamFeatures
 //@   noswallow[C01,C02,C04]
 //@   ensures[C01,C02,C04] unchanged(s.state) && unchanged(s.negotiated) && unchanged(s.in.d) && unchanged(features) && s.features == old(s.features)
-//@   ensures[C01,C02,C04] result1 == nil ==> result0 != nil && result0.cache != nil && result0.total >= 0
+//@   ensures result1 == nil ==> result0 != nil && result0.cache != nil && result0.total >= 0
 //@   ensures[C01,C02,C04] result1 == nil ==> forall k string :: has(result0.cache, k) ==> cached(result0.cache[k], k, s.state) && (result0.cache[k].req ==> result0.req) && result0.total > 0 && result0.cache[k].feature.Name.Local != ""
 //@   ensures[C01,C02,C04] result1 == nil ==> forall k string :: has(result0.cache, k) ==> exists i int :: 0 <= i && i < len(features) && features[i] == result0.cache[k].feature
 //@   callsite (encoding/xml.TokenReader).Token#*
@@ -374,7 +374,7 @@ package xmpp
 //@     preserves s.state, s.negotiated, s.in.d, sf, sf.cache, sf.req, sf.total, features, s.features
 //@   loop 1
 //@     invariant[C01,C02,C04] unchanged(s.state) && unchanged(s.negotiated) && unchanged(s.in.d) && unchanged(features) && s.features == old(s.features)
-//@     invariant[C01,C02,C04] sf != nil && sf.cache != nil && sf.total >= 0
+//@     invariant sf != nil && sf.cache != nil && sf.total >= 0
 //@     invariant[C01,C02,C04] forall k string :: has(sf.cache, k) ==> cached(sf.cache[k], k, s.state) && (sf.cache[k].req ==> sf.req) && sf.total > 0 && sf.cache[k].feature.Name.Local != ""
 //@     invariant[C01,C02,C04] forall k string :: has(sf.cache, k) ==> exists i int :: 0 <= i && i < len(features) && features[i] == sf.cache[k].feature
 
@@ -429,7 +429,7 @@ package xmpp
 //@   ensures[C01,C02,C04] err == nil && rw != nil && lastMask & Ready == 0 ==> mask & Ready == 0
 //@   ensures[C01,C02,C04] s.state == old(s.state) | okMask
 //@   loop 1
-//@     invariant[C01,C02,C04] list != nil && list.cache != nil
+//@     invariant list != nil && list.cache != nil
 //@     invariant[C01,C02,C04] s.state & old(s.state) == old(s.state)
 //@     invariant[C01,C02,C04] unchanged(s.in.d) && s.negotiated == old(s.negotiated) && s.features == old(s.features) && unchanged(features)
 //@     invariant[C01,C02,C04] forall k string :: has(list.cache, k) ==> list.cache[k].feature.Name.Space == k && (list.cache[k].req ==> list.req)
